@@ -16,14 +16,15 @@ suffix (`Cut`) of the chain that is good for the type below the pair.
 -/
 import RegexVerif.Lemmas.VM
 import RegexVerif.Lemmas.StackTyping
+import RegexVerif.Lemmas.StackTypingCap
 
 namespace RegexVerif.Lemmas.StackTypingSound
 open RegexVerif RegexVerif.Code RegexVerif.VM RegexVerif.StackTyping RegexVerif.Lemmas.VM
-open RegexVerif.Lemmas.StackTyping
+open RegexVerif.Lemmas.StackTyping RegexVerif.Lemmas.StackTypingCap
 
 /-- the discipline faults excluded by the typing -/
 def disc : Fault → Bool
-  | .stackUnderflow | .tracktoRange | .textposRange | .crawlUnderflow => true
+  | .stackUnderflow | .tracktoRange | .textposRange | .crawlUnderflow | .capRange => true
   | _ => false
 
 /-- refined kinds: the depth slots carry their value -/
@@ -330,21 +331,23 @@ def Succ (a : Assign) (q : Nat) (τ : RTy) : Prop := ∃ S, a.get q = some S ∧
 /-- the backtracking stack of `s` is a chain (over the bottom slot) that can be resumed with the current grouping stack,
     of type `τ`, at the current crawl depth -/
 def ChainS (p : Prog) (bs : List Nat) (n : Int) (a : Assign) (s : VMState) (τ : RTy) : Prop :=
-  ∃ core tp, s.track = core ++ [tp] ∧ Good p bs n a core τ (crawlLen s) ∧ Vals n s.stack τ
+  ∃ core tp, s.track = core ++ [tp] ∧ Good p bs n a core τ (crawlLen s) ∧ Vals n s.stack τ ∧
+    CapOk n p.capsize s.cap
 
 /-- Back / Back2 mode: the data of the popped frame is on top -/
 def BackS (p : Prog) (bs : List Nat) (n : Int) (a : Assign) (b2 : Bool) (s : VMState) (o : Op) : Prop :=
   ∃ d core tp S τ τ' cl', s.track = d ++ (core ++ [tp]) ∧ frameData o b2 = some d.length ∧
     a.get s.codepos = some S ∧
     FrameTy p n s.codepos o b2 S d ((core.length : Int) + 1) τ (crawlLen s) τ' cl' ∧ Good p bs n a core τ' cl' ∧
-    Vals n s.stack τ
+    Vals n s.stack τ ∧ CapOk n p.capsize s.cap
 
 /-- the typing part of the invariant, by the mode of the operator about to run -/
 def TShape (p : Prog) (bs : List Nat) (n : Int) (a : Assign) (s : VMState) (o : Op) : Prop :=
   match s.oper.back, s.oper.back2 with
   | false, false =>
     (∃ σ, ChainS p bs n a s σ ∧ Succ a s.codepos σ) ∨
-    (s.track = [] ∧ s.stack = [] ∧ s.cap.crawl = [] ∧ s.codepos = 0) ∨ (s.track = [] ∧ o = .stop)
+    (s.track = [] ∧ s.stack = [] ∧ s.cap.crawl = [] ∧ s.codepos = 0 ∧ CapOk n p.capsize s.cap) ∨
+    (s.track = [] ∧ o = .stop)
   | true, false => BackS p bs n a false s o ∨ (s.codepos = 0 ∧ ∃ tp, s.track = [tp])
   | false, true => BackS p bs n a true s o
   | true, true => False
